@@ -99,9 +99,15 @@ def model(table, lists, cfg, items):
             msgs.add(l['msg'] if (a and l['msg']) else '')
         results.append((l['credit'] * frac, msgs))
     best = max(r[0] for r in results)
-    cands = [r[1] for r in results if abs(r[0] - best) <= 1e-12]
-    floor = max(min(len(m) for m in ms) for ms in cands)
-    acceptable = set(m for ms in cands for m in ms if len(m) >= floor)
+    near = [r for r in results if abs(r[0] - best) <= 1e-9]
+    if all(r[0] == best for r in near):
+        # an exact tie: the longest message among the best-scoring alternatives is reported (R5)
+        floor = max(min(len(m) for m in r[1]) for r in near)
+        acceptable = set(m for r in near for m in r[1] if len(m) >= floor)
+    else:
+        # grades that differ only by rounding (e.g. 2.1/3 vs 0.7): which one is the maximum is decided by the
+        # last bit, so the message of any of them may be reported
+        acceptable = set(m for r in near for m in r[1])
     return ('grade', best, acceptable)
 
 
